@@ -44,3 +44,11 @@ META['C07'] = dict(
     note='Trusted: harness reading of the bytecode fields; per-case 90 s watchdog (>1000x a normal case) is the only clock and a timeout must reproduce 3 times.',
     technique='property-based testing (rapidcheck): arithmetic invariant + structural validity predicate + step-counting invariant',
 )
+
+META['C06'] = dict(
+    text='Generated adversarial programs and buffer placements executed with every buffer the property names fenced: ASan/bounds instrumentation for compiled C/C++ code, '
+         'PROT_NONE guard pages adjacent to scratchpad, cache, dataset and code buffers for JIT-emitted code, checksums over previously emitted code, canaries and guard pages '
+         'around API input/output. 4.4k cases quick / 360k thorough. A violation shows as a fault, a sanitizer report or a changed checksum; absence is evidence only for the explored cases.',
+    note='Trusted: page-granular guards for emitted code (an out-of-bounds access that stays inside the same page-multiple buffer is by definition in bounds); synthetic dataset contents.',
+    technique='property-based testing (rapidcheck) with memory-safety oracles: guard pages, ASan, code checksums, canaries; driver-side delta debugging of crashing cases',
+)
